@@ -235,6 +235,35 @@ func c38ManagerCase(r *verifkit.R, phase string, ci int, rng *verifkit.Rand) {
 			return
 		}
 		hist = append(hist, "closed-by-"+closer.name)
+		// ids asked for on the closed connection are held to the same rules
+		seen := map[uint64]string{}
+		for ei := range ends {
+			for _, id := range flat[ei] {
+				seen[id] = names[ei]
+			}
+		}
+		for ei, c := range ends {
+			for i := 0; i < 3; i++ {
+				id := c.NextStreamID()
+				prev, dup := seen[id]
+				switch {
+				case id == 0:
+					r.Violation("manager:"+names[ei]+"-end:zero-id", phase, ci, fmt.Sprintf("connection #%d (%s): after it was closed the %s end returned the id 0 (control stream id)", s+1, h, names[ei]), map[string]any{"history": hist})
+					return
+				case (id%2 == 1) != (ei == 0):
+					r.Violation("manager:"+names[ei]+"-end:wrong-parity", phase, ci, fmt.Sprintf("connection #%d (%s): after it was closed the %s end returned id %d", s+1, h, names[ei], id), map[string]any{"history": hist})
+					return
+				case dup && prev == names[ei]:
+					r.Violation("manager:"+names[ei]+"-end:duplicate-id", phase, ci, fmt.Sprintf("connection #%d (%s): after it was closed the %s end returned id %d again", s+1, h, names[ei], id), map[string]any{"history": hist})
+					return
+				case dup:
+					r.Violation("manager:ends:same-id-both-sides", phase, ci, fmt.Sprintf("connection #%d (%s): after it was closed id %d was handed out by both ends", s+1, h, id), map[string]any{"history": hist})
+					return
+				}
+				seen[id] = names[ei]
+			}
+			r.Add("ids_allocated_after_close", 3)
+		}
 		// sometimes one side is restarted: fresh manager, same identity
 		if rng.Chance(1, 4) {
 			n := a
